@@ -20,8 +20,11 @@ def run(tier, wd):
     q = tier == "quick"
     # (1) bounded exhaustive, alphabet chosen so that many lines are accepted with several bound variables
     specs = g.family(p, 10 if q else 60, seed)
-    alphabet = ["x", " y ", "--", "-ab", "-ov", "-o", "--out=w ", "-a", "--out"] if q else ["x", "y", "--", "-ab", "-ov", "-o", "--out=w", "-a", "-eu", "--out"]
+    alphabet = ["x", " y ", "--", "-ab", "-ov", "-o", "--out=w ", "-a", "--out", "--aa", "1"] if q else ["x", "y", "--", "-ab", "-ov", "-o", "--out=w", "-a", "-eu", "--out"]
     triples = rc.enumerate_and_run(rep, wd, binpath, specs, alphabet, [[]] if q else [[], ["-e"]], 3 if q else 4, "enum")
+    if not q:
+        # the quick tier's alphabet (blank-padded tokens, a long flag next to a token ParseBool accepts) up to length 3 as well
+        triples = triples + rc.enumerate_and_run(rep, wd, binpath, specs, ["x", " y ", "--", "-ab", "-ov", "-o", "--out=w ", "-a", "--out", "--aa", "1"], [[]], 3, "enum-quick-alphabet")
     cnt = collections.Counter()
     nontrivial = set()
     ambiguous = 0
